@@ -551,6 +551,12 @@ def rule_z9(repo):
     g = repo.func(Z3W, 'solve_core')
     contrib = [n.value for n in ast.walk(g.node) if isinstance(n, ast.Assign) and any(is_name(t, 'var_names') for t in n.targets)]
     need(contrib, 'solve_core: the list of names to avoid (var_names) not found')
+    # everything that flows into the list: appended / extended values and the sequences such additions loop over (as in Z8)
+    for n in ast.walk(g.node):
+        if isinstance(n, ast.Call) and call_attr(n) in ('append', 'extend') and is_name(n.func.value, 'var_names') and n.args:
+            contrib.append(n.args[0])
+        if isinstance(n, ast.For) and any(isinstance(c, ast.Call) and call_attr(c) in ('append', 'extend') and is_name(c.func.value, 'var_names') for c in ast.walk(n)):
+            contrib.append(n.iter)
     flow = flow_of(g.node)
     collected = set()
     for v in contrib:
